@@ -64,7 +64,35 @@ def app(f, *xs):
 
 
 # ------------------------------------------------------- running the code
-def run_impl(prop, cases, seed, timeout=None):
+def run_impl(prop, cases, seed, timeout=None, confirm_hangs=False):
+    traces = _run_impl(prop, cases, seed, timeout)
+    if confirm_hangs:
+        # A hang is an observation (non-termination is a violation of C04 and
+        # others), but a stalled machine must not be mistaken for one: the
+        # first hung cases are run again, alone, with five times the alarm.
+        hung = [i for i, t in enumerate(traces) if isinstance(t, dict) and t.get('hang')]
+        probe = hung[:4]
+        cleared = False
+        for i in probe:
+            os.environ['VERIF_TIMEOUT_SCALE'] = '5'
+            try:
+                (t,) = _run_impl(prop, [cases[i]], seed, timeout)
+            finally:
+                os.environ.pop('VERIF_TIMEOUT_SCALE', None)
+            if not (isinstance(t, dict) and t.get('hang')):
+                traces[i] = t
+                cleared = True
+        if cleared:                 # load-induced: give every hung case a second chance
+            for i in hung[4:]:
+                os.environ['VERIF_TIMEOUT_SCALE'] = '5'
+                try:
+                    (traces[i],) = _run_impl(prop, [cases[i]], seed, timeout)
+                finally:
+                    os.environ.pop('VERIF_TIMEOUT_SCALE', None)
+    return traces
+
+
+def _run_impl(prop, cases, seed, timeout=None):
     """Run `cases` against the real desper in worker processes.
 
     Returns one trace (JSON value) per case; a worker that dies or hangs
@@ -85,7 +113,7 @@ def run_impl(prop, cases, seed, timeout=None):
         pending = list(idx)
         while pending:
             inp = '\n'.join(json.dumps(cases[i]) for i in pending) + '\n'
-            to = timeout or (30 + 8 * len(pending))
+            to = timeout or (30 + 8 * len(pending)) * int(os.environ.get('VERIF_TIMEOUT_SCALE', '1'))
             try:
                 r = subprocess.run([PY, '-m', 'harness.worker', prop.__name__],
                                    input=inp, capture_output=True, text=True,
@@ -333,8 +361,8 @@ class Session:
         self.n_impl = 0
         self.n_coq = 0
 
-    def evaluate(self, cases):
-        traces = run_impl(self.prop, cases, self.seed)
+    def evaluate(self, cases, confirm_hangs=False):
+        traces = run_impl(self.prop, cases, self.seed, confirm_hangs=confirm_hangs)
         self.n_impl += len(cases)
         terms = [self.prop.encode(c, t) for c, t in zip(cases, traces)]
         verdicts = eval_coq(self.prop, terms, self.workdir)
@@ -461,7 +489,7 @@ def check(pid, tier, seed):
         cases += gen_cases
         origin += ['gen'] * len(gen_cases)
 
-        traces, verdicts = sess.evaluate(cases)
+        traces, verdicts = sess.evaluate(cases, confirm_hangs=True)
         classes = [classify(v) for v in verdicts]
         counts = {}
         for c in classes:
